@@ -146,10 +146,28 @@ def systematic_blocks():
                     "blk-nest-inner-x-derived"))
     out.append(case(Fn3, nest(cross([1, 3, 4], [4]), cross([2], [2])), "C", ["Nest", "outer-crossed-derived-alone"],
                     "blk-nest-outer-x-derived-alone"))
+    # Nest whose inner block has a preamble, under the alignments that allow it (the last sustained group is cut short, FX26)
+    Np = [basic("o", 2), basic("i", 2), basic("j", 2)]
+    Np.append(derived(Np, "ri", [2], "transition", table=eq_table(Np, [2], 2)))
+    for al in ("post", "parallel"):
+        out.append(case(Np, nest(cross([1], [1]), multi([2, 4], [[2, 4]], [], True, "equal", al)), "C",
+                        ["Nest", "inner-preamble", al], "blk-nest-inner-pre-%s" % al))
+        out.append(case(Np, nest(multi([1], [[1]], [], True, "equal", al), multi([2, 3, 4], [[2, 4], [3]], [], True, "repeat", al)), "C",
+                        ["Nest", "inner-preamble", "inner-multi", al], "blk-nest-inner-pre-multi-%s" % al))
     Fn2 = [basic("o", 2), basic("m", 2), basic("i", 2)]
     out.append(case(Fn2, nest(nest(cross([1], [1]), cross([2], [2])), cross([3], [3])), "C", ["Nest", "nested-left"], "blk-nest-left"))
     out.append(case(Fn2, nest(cross([1], [1]), nest(cross([2], [2]), cross([3], [3]))), "C", ["Nest", "nested-right"], "blk-nest-right"))
     out.append(case(Fn2, nest(multi([1, 2], [[1], [2]]), cross([3], [3])), "C", ["Nest", "outer-multi"], "blk-nest-outer-multi"))
+    # constraints of the innermost OUTER block under two levels of nesting: their geometry is stretched twice
+    Fn4 = [basic("o", 3), basic("m", 2), basic("i", 2)]
+    for nm, k in (("pin1", K("Pin", i=1, f=1, l=1)), ("pin-2", K("Pin", i=-2, f=1, l=2)), ("pin0", K("Pin", i=0, f=1, l=3)),
+                  ("atmost1", K("AtMostKInARow", k=1, f=1, l=1)), ("exk1", K("ExactlyK", k=1, f=1, l=1))):
+        out.append(case(Fn4, nest(nest(cross([1], [1], [k]), cross([2], [2])), cross([3], [3])), "C",
+                        ["Nest", "nested-left", "outerblock", nm], "blk-nest-left-ob-%s" % nm))
+    out.append(case(Fn4, nest(cross([1], [1], [K("Pin", i=1, f=1, l=1)]), nest(cross([2], [2]), cross([3], [3]))), "C",
+                    ["Nest", "nested-right", "outerblock", "pin1"], "blk-nest-right-ob-pin1"))
+    out.append(case(Fn4, nest(nest(cross([1], [1]), cross([2], [2], [K("Pin", i=1, f=2, l=1)])), cross([3], [3])), "C",
+                    ["Nest", "nested-left", "middle-block", "pin1"], "blk-nest-left-mid-pin1"))
     return out
 
 
